@@ -58,7 +58,8 @@ Record cfg := {
   skips_closed : bool;         (* loop: an entry whose association has signalled closure counts as absent *)
   notify_identity : bool;      (* loop: delete only if the table entry is the notifying association *)
   read_selects_closed : bool;  (* Read: case <-pc.closed => EOF path *)
-  read_eof_notifies : bool     (* Read: pc.closeCh <- ... before returning io.EOF *)
+  read_eof_notifies : bool;    (* Read: pc.closeCh <- ... before returning io.EOF *)
+  read_notify_blocking : bool  (* ... as a plain send; false: select with default, dropped when closeCh is full *)
 }.
 
 Definition src_cfg : cfg := {|
@@ -70,7 +71,8 @@ Definition src_cfg : cfg := {|
   skips_closed := layer4_udp_loop_skips_closed;
   notify_identity := layer4_udp_close_notify_identity && layer4_udp_loop_delete_checked;
   read_selects_closed := layer4_pc_read_selects_closed;
-  read_eof_notifies := layer4_pc_read_eof_notifies
+  read_eof_notifies := layer4_pc_read_eof_notifies;
+  read_notify_blocking := layer4_pc_read_notify_blocking
 |}.
 
 (* the code as it was before the repair (Close: release, close(readCh), drain, notify, return;
@@ -79,7 +81,15 @@ Definition legacy_cfg : cfg := {|
   cap_packets := 10; cap_close := 10; cap_read := 5;
   close_ops := [CRelease; CCloseRead; CDrainRange; CNotify; CReturn];
   send_guarded := false; skips_closed := false; notify_identity := false;
-  read_selects_closed := false; read_eof_notifies := true
+  read_selects_closed := false; read_eof_notifies := true; read_notify_blocking := true
+|}.
+
+(* the repaired code, except that Read's notification is a select with a default branch *)
+Definition lossy_cfg : cfg := {|
+  cap_packets := 10; cap_close := 10; cap_read := 5;
+  close_ops := [CRelease; CSignal; CDrainNB; CNotify; CReturn];
+  send_guarded := true; skips_closed := true; notify_identity := true;
+  read_selects_closed := true; read_eof_notifies := true; read_notify_blocking := false
 |}.
 
 (* ---- state ---- *)
@@ -309,7 +319,8 @@ Definition exec (g : cfg) (s : state) (t : step) : option state :=
           | None =>
               if (rclosed k && match readq k with [] => true | _ => false end) || (read_selects_closed g && sclosed k) then
                 if read_eof_notifies g then
-                  if length (closeCh s) <? cap_close g then Some (with_conn_note s c k [EEof c]) else None
+                  if length (closeCh s) <? cap_close g then Some (with_conn_note s c k [EEof c])
+                  else if read_notify_blocking g then None else Some (with_conn s c k [EEof c])
                 else Some (with_conn s c k [EEof c])
               else None
           end
@@ -322,7 +333,8 @@ Definition exec (g : cfg) (s : state) (t : step) : option state :=
           | Some _ => None
           | None =>
               if read_eof_notifies g then
-                if length (closeCh s) <? cap_close g then Some (with_conn_note s c k [EEof c]) else None
+                if length (closeCh s) <? cap_close g then Some (with_conn_note s c k [EEof c])
+                else if read_notify_blocking g then None else Some (with_conn s c k [EEof c])
               else Some (with_conn s c k [EEof c])
           end
       | None => None
